@@ -101,7 +101,7 @@ fn big_chroms() -> BoxedStrategy<Case> {
         .boxed()
 }
 
-fn big_case(n_items: usize, ips: u32, n_chroms: usize) -> Case {
+pub fn big_case(n_items: usize, ips: u32, n_chroms: usize) -> Case {
     let mut chroms = vec![];
     for ci in 0..n_chroms {
         let per = n_items / n_chroms;
